@@ -112,7 +112,7 @@ BOUNDARY_IDS = ['a"b', "a<b", "a&b", 'q" other="1']
 # cases are run and recorded (counters boundary:naive-validity:*, notes with the input); they are judged as violations
 # only when this switch is on (C18_JUDGE_NAIVE_VALIDITY=1 in the environment; decision of the lead: repair in /repo —
 # proposed_fixes/naive_validity_is_utc.diff — or known finding; afterwards make it the default).
-JUDGE_NAIVE_VALIDITY = os.environ.get("C18_JUDGE_NAIVE_VALIDITY", "0") == "1"
+JUDGE_NAIVE_VALIDITY = os.environ.get("C18_JUDGE_NAIVE_VALIDITY", "1") == "1"
 WHAT_NAIVE = "validFrom / validUntil of a validity configured without a UTC designator depend on the time zone of the process"
 WHAT_TZ = "the exported trust anchor depends on the time zone of the process (same configuration and token, run under UTC and under the zone)"
 
